@@ -187,7 +187,7 @@ pub fn run(r: &mut Runner) {
         }
     });
     // atan2: all four sign combinations, all axis cases
-    let ge: Vec<i32> = if quick { vec![-30, -29, -15, -1, 0, 1, 15, 29] } else { (-30..=29).collect() };
+    let ge: Vec<i32> = if quick { vec![-30, -15, -1, 0, 1, 29] } else { (-30..=29).collect() };
     let mut g = grid_thin(&ge, if quick { 1 } else { 3 }, 95);
     for z in [[0.0, 0.0], [-0.0, 0.0], [0.0, -0.0], [-0.0, -0.0], [2f64.powi(30), 0.0], [-2f64.powi(30), 0.0], [2f64.powi(-30), 0.0], [-2f64.powi(-30), 0.0]] {
         g.push(z);
@@ -232,6 +232,30 @@ pub fn run(r: &mut Runner) {
             for j in 0..no {
                 let v = judge_atan2(org[i], org[j], Some(l));
                 rec.record(l, (1u64 << 59) + (i * no + j) as u64, v);
+            }
+        });
+    }
+    {
+        let gs = crate::fx::generic_stream(if quick { 15000 } else { 1500000 }, 117, -40, -1);
+        let ngs = gs.len();
+        r.notes.push(format!("generic stream for asin/acos: {} operands of a fixed Weyl sequence (full-size mantissas in both words, exponents -40..-1)", ngs));
+        r.par("generic stream: asin/acos", ngs.div_ceil(64), ngs as u64, |c, l| {
+            for i in (c * 64)..((c + 1) * 64).min(ngs) {
+                for call in 0..2 {
+                    let v = judge1(call, gs[i], Some(l));
+                    rec.record(l, (1u64 << 58) + (i * 2 + call) as u64, v);
+                }
+            }
+        });
+    }
+    {
+        let gs = crate::fx::generic_stream(if quick { 15000 } else { 1500000 }, 1170, -40, 59);
+        let ngs = gs.len();
+        r.notes.push(format!("generic stream for atan: {} operands of a fixed Weyl sequence (full-size mantissas in both words, exponents -40..59)", ngs));
+        r.par("generic stream: atan", ngs.div_ceil(64), ngs as u64, |c, l| {
+            for i in (c * 64)..((c + 1) * 64).min(ngs) {
+                let v = judge1(2, gs[i], Some(l));
+                rec.record(l, (1u64 << 57) + i as u64, v);
             }
         });
     }
